@@ -91,3 +91,129 @@ func (w *World) describeRoots() string {
 	}
 	return s
 }
+
+// accessTraversal is the model-free half of C05's last clause: inside the library itself, positional / keyed
+// access and sequential traversal agree.  Every element that a traversal yields must be what the lookup by
+// its index / key returns, and the traversal yields Count() elements; checked recursively through nested
+// containers (as the traversal hands them out).
+func (w *World) accessTraversal() *Violation {
+	for _, r := range w.Model.Roots() {
+		v, err := w.openRoot(w.Storage, r)
+		if err != nil {
+			continue // judged by the content oracles
+		}
+		if vv := w.accessTraversalOf(v, fmt.Sprintf("container #%d", r.CID), 0); vv != nil {
+			return vv
+		}
+	}
+	w.Stats.Inc("struct.access-traversal-checked")
+	return nil
+}
+
+func sameLibValue(a, b atree.Value) bool {
+	switch x := a.(type) {
+	case U64:
+		y, ok := b.(U64)
+		return ok && x == y
+	case Byte:
+		y, ok := b.(Byte)
+		return ok && x == y
+	case Str:
+		y, ok := b.(Str)
+		return ok && x.S == y.S
+	case SomeV:
+		y, ok := b.(SomeV)
+		return ok && sameLibValue(x.V, y.V)
+	case *atree.Array:
+		y, ok := b.(*atree.Array)
+		return ok && x.ValueID() == y.ValueID()
+	case *atree.OrderedMap:
+		y, ok := b.(*atree.OrderedMap)
+		return ok && x.ValueID() == y.ValueID()
+	}
+	return false
+}
+
+func (w *World) accessTraversalOf(v atree.Value, path string, depth int) *Violation {
+	if depth > 5 {
+		return nil
+	}
+	in, _ := unwrapValue(v)
+	switch c := in.(type) {
+	case *atree.Array:
+		var viol *Violation
+		i := uint64(0)
+		var children []atree.Value
+		err := c.IterateReadOnly(func(e atree.Value) (bool, error) {
+			got, gerr := c.Get(i)
+			if gerr != nil {
+				viol = w.viol("struct.access-traversal", "%s: traversal yields an element at position %d, positional access fails: %v", path, i, gerr)
+				return false, nil
+			}
+			if !sameLibValue(e, got) {
+				viol = w.viol("struct.access-traversal", "%s: traversal yields %v at position %d, positional access returns %v", path, e, i, got)
+				return false, nil
+			}
+			if x, _ := unwrapValue(e); x != nil {
+				switch x.(type) {
+				case *atree.Array, *atree.OrderedMap:
+					children = append(children, e)
+				}
+			}
+			i++
+			return true, nil
+		})
+		if viol != nil {
+			return viol
+		}
+		if err != nil {
+			return nil // judged by the content oracles
+		}
+		if i != c.Count() {
+			return w.viol("struct.access-traversal", "%s: traversal yields %d elements, Count() is %d", path, i, c.Count())
+		}
+		for k, ch := range children {
+			if vv := w.accessTraversalOf(ch, fmt.Sprintf("%s/child%d", path, k), depth+1); vv != nil {
+				return vv
+			}
+		}
+	case *atree.OrderedMap:
+		var viol *Violation
+		n := uint64(0)
+		var children []atree.Value
+		err := c.IterateReadOnly(func(k, e atree.Value) (bool, error) {
+			got, gerr := c.Get(w.cmp, w.hip, k)
+			if gerr != nil {
+				viol = w.viol("struct.access-traversal", "%s: traversal yields key %v, keyed access fails: %v", path, k, gerr)
+				return false, nil
+			}
+			if !sameLibValue(e, got) {
+				viol = w.viol("struct.access-traversal", "%s: traversal yields %v under key %v, keyed access returns %v", path, e, k, got)
+				return false, nil
+			}
+			if x, _ := unwrapValue(e); x != nil {
+				switch x.(type) {
+				case *atree.Array, *atree.OrderedMap:
+					children = append(children, e)
+				}
+			}
+			n++
+			return true, nil
+		})
+		if viol != nil {
+			return viol
+		}
+		if err != nil {
+			return nil
+		}
+		if n != c.Count() {
+			return w.viol("struct.access-traversal", "%s: traversal yields %d entries, Count() is %d", path, n, c.Count())
+		}
+		for k, ch := range children {
+			if vv := w.accessTraversalOf(ch, fmt.Sprintf("%s/child%d", path, k), depth+1); vv != nil {
+				return vv
+			}
+		}
+	}
+	return nil
+}
